@@ -88,7 +88,15 @@ func (x *Executor) execInstr(fr *Frame, in ssa.Instruction, st *State, reach str
 		if av.Addr == nil {
 			x.check(fr, "nil", fmt.Sprintf("(not (= %s 0))", av.T), reach, "nil dereference (store)")
 		}
+		var beforeStore *State
+		if len(u.twoState) > 0 && (av.Addr == nil || av.Addr.Kind != "local") {
+			beforeStore = st.clone()
+		}
 		x.storeAddr(st, x.deref(av), vv, reach)
+		if beforeStore != nil {
+			// frame lemmas in use also relate the heaps before and after a heap store
+			x.applyTwoStateLemmas(beforeStore, st)
+		}
 
 	case *ssa.BinOp:
 		xv, yv := x.value(fr, t.X), x.value(fr, t.Y)
@@ -146,6 +154,20 @@ func (x *Executor) execInstr(fr *Frame, in ssa.Instruction, st *State, reach str
 			before = st.clone()
 		}
 		fr.vals[t] = x.execCall(fr, st, reach, &t.Call, t)
+		if fr.con != nil && fr.con == x.topCon {
+			name := ""
+			if t.Call.IsInvoke() {
+				name = t.Call.Method.Name()
+			} else if c := t.Call.StaticCallee(); c != nil {
+				name = c.Name()
+			}
+			if name != "" {
+				if x.callResults == nil {
+					x.callResults = map[string]Val{}
+				}
+				x.callResults[name] = fr.vals[t]
+			}
+		}
 		if before != nil {
 			x.applyTwoStateLemmas(before, st)
 		}
@@ -337,8 +359,34 @@ func (x *Executor) execInstr(fr *Frame, in ssa.Instruction, st *State, reach str
 
 	case *ssa.Go:
 		u.unsupported("go statement")
-	case *ssa.Send, *ssa.Select, *ssa.MakeChan:
-		u.unsupported(fmt.Sprintf("channel operation %T", in))
+	case *ssa.MakeChan:
+		// a channel is an opaque object; what is sent on it is handed to unknown code
+		u.notes[chanNote] = true
+		fr.vals[t] = x.freshResult(st, t.Type(), false)
+		u.assume(fmt.Sprintf("(not (= %s 0))", fr.vals[t].T))
+	case *ssa.Send:
+		u.notes[chanNote] = true
+		x.value(fr, t.Chan)
+		x.escape(st, x.value(fr, t.X))
+	case *ssa.Select:
+		// any ready case may be chosen; received values are arbitrary well-formed values; sent values escape
+		u.notes[chanNote] = true
+		for _, stt := range t.States {
+			if stt.Send != nil {
+				x.escape(st, x.value(fr, stt.Send))
+			}
+		}
+		tup := t.Type().(*types.Tuple)
+		var vs []Val
+		for i := 0; i < tup.Len(); i++ {
+			vs = append(vs, x.freshResult(st, tup.At(i).Type(), false))
+		}
+		lo := 0
+		if !t.Blocking {
+			lo = -1
+		}
+		u.assume(fmt.Sprintf("(and (<= %d %s) (< %s %d))", lo, vs[0].T, vs[0].T, len(t.States)))
+		fr.vals[t] = Val{Ty: t.Type(), Tup: vs}
 	case *ssa.SliceToArrayPointer:
 		u.unsupported("slice to array pointer")
 	default:
@@ -404,8 +452,9 @@ func (x *Executor) execUnOp(fr *Frame, t *ssa.UnOp, st *State, reach string) {
 			fr.vals[t] = Val{T: u.define("cpl", "Int", fmt.Sprintf("(- (- %s) 1)", xv.T)), Ty: t.Type()}
 		}
 	case token.ARROW:
-		u.unsupported("channel receive")
-		fr.vals[t] = Val{T: u.freshConst("recv", u.sortOf(t.Type())), Ty: t.Type()}
+		// a received value is an arbitrary well-formed value of the element type
+		u.notes[chanNote] = true
+		fr.vals[t] = x.freshResult(st, t.Type(), false)
 	default:
 		u.unsupported("unary op " + t.Op.String())
 	}
@@ -1038,3 +1087,5 @@ func (x *Executor) execNext(fr *Frame, st *State, t *ssa.Next, reach string) {
 	st.ghost[g] = u.define("visited", fmt.Sprintf("(Array %s Bool)", ks), fmt.Sprintf("(ite %s (store %s %s true) %s)", okc, vis, k, vis))
 	fr.vals[t] = Val{Ty: t.Type(), Tup: []Val{{T: okc, Ty: types.Typ[types.Bool]}, {T: k, Ty: mt.Key()}, vv}}
 }
+
+const chanNote = "channels: make/send/receive/select are modelled as non-panicking, non-blocking hand-offs to unknown code (a closed or nil channel, and blocking, are not modelled)"
